@@ -235,8 +235,9 @@ class Reject(Exception):
     pass
 
 
-# deviations of the unchanged implementation (the KNOWN classes of checks/c12.py), switched on only
-# to recognise them: "array" = nothing below an array is expanded, "rpc" = JSON-RPC schemas are not visited
+# deviations an implementation may show (the KNOWN classes of checks/c12.py name the ones it is known
+# to show: none since /repo a2c8521 + d4084b3), switched on only to recognise them:
+# "array" = nothing below an array is expanded, "rpc" = JSON-RPC schemas are not visited
 DEVIATIONS = set()
 
 
@@ -342,7 +343,8 @@ def allof_under_array(t, under=False):
 
 
 def classes(types, uses):
-    """the known classes of accepted projects on which the implementation does not expand allOf"""
+    """classes of projects: "array" = an allOf rule at or below an array, "rpc" = a rule in a JSON-RPC
+    schema (the two classes on which the implementation did not expand allOf before the fixes)"""
     cl = set()
     for n, t in types:
         if t is not None and allof_under_array(t):
